@@ -297,12 +297,33 @@ def r6(fx):
     for o in p13.r6(fx):
         if 'capacity' in o.key:
             yield o
+    # the requested and the automatic path mask with the same predicate table and the same region predicate: a symbol made with the
+    # automatically chosen pattern number given explicitly is the same symbol
+    from . import p06
+    from ..interp import Interp, FuncVal
     fn = fx.fn('encoder', 'find_and_apply_best_mask')
-    calls = [c for c in src.calls_in(fn, 'apply_mask', into_nested=False)]
-    oka = len(calls) == 2 and all(pat.match(c, 'apply_mask(H_m, H_p, width, height, is_encoding_region)') is not None for c in calls)
-    pats = [ast.unparse(pat.match(c, 'apply_mask(H_m, H_p, width, height, is_encoding_region)')['p']) for c in calls] if oka else []
-    yield ob('requested and automatic path use the same apply_mask with predicates from the same table', oka
-             and sorted(pats) == ['mask_pattern', 'mask_patterns[proposed_mask]'], fn, got=pats, want=['mask_patterns[proposed_mask]', 'mask_pattern'])
+    it = Interp(max_steps=20_000_000)
+    diff = []
+    for micro in (False, True):
+        n = 11 if micro else 21
+        seen = {}
+        for requested in (None, 2):
+            log = []
+            genv, tag_of = p06._selection_env(fx, it, [1, 2, 9, 3] if micro else [9, 8, 1, 7, 6, 5, 4, 3], micro, log)
+            regions = []
+            inner = genv['apply_mask']
+
+            def apply_mask(matrix, mask_pattern, width, height, is_encoding_region, inner=inner, regions=regions, n=n):
+                regions.append((mask_pattern.k, width, height, tuple(bool(is_encoding_region(i, j)) for i in range(n) for j in range(n))))
+                return inner(matrix, mask_pattern, width, height, is_encoding_region)
+            genv['apply_mask'] = apply_mask
+            res = FuncVal(fn, genv, it)(genv['make_matrix'](n, n), n, n, requested)
+            seen[requested] = (res[0] if isinstance(res, tuple) else res, [r for r in regions if r[0] == 2])
+        auto, req = seen[None], seen[2]
+        if auto[0] != 2 or req[0] != 2 or not auto[1] or not req[1] or any(r != req[1][0] for r in auto[1] + req[1]):
+            diff.append(('Micro' if micro else 'QR', auto[0], req[0], len(auto[1]), len(req[1])))
+    yield ob('requested and automatic path use the same apply_mask with predicates from the same table', not diff, fn, got=diff or 'same predicate, same region',
+             want='pattern 2 chosen automatically and pattern 2 requested: masked with the same predicate over the same encoding region')
 
 
 def stateless(fx, prop):
